@@ -35,10 +35,12 @@ class Stop(BaseException):
 
 
 class LineWorld(object):
-    def __init__(self, names, start):
+    def __init__(self, names, start, raw=False, opcode=False):
         m = env.mods()['sync']
+        self.opcode = opcode        # preempt before every bytecode instruction of _open (not only before every line)
+        self.prestep = True
         self.names = names
-        self.sched = sched.ThreadSched()
+        self.sched = sched.ThreadSched(raw=raw)
         self.rec = simdev.Recorder()
         self.rec.who = sched.current_name
         self.dev = simdev.SimDevice(rec=self.rec, lazy=False)
@@ -105,8 +107,14 @@ class LineWorld(object):
 
         def tracer(frame, event, arg):
             if frame.f_code is self.code:
+                if self.opcode:
+                    frame.f_trace_opcodes = True
+
                 def local(frame, event, arg):
-                    if event == 'line' and frame.f_lineno in self.labels:
+                    if self.opcode:
+                        if event == 'opcode':
+                            self.sched.boundary('op', lambda: True)
+                    elif event == 'line' and frame.f_lineno in self.labels:
                         self.sched.boundary(self.labels[frame.f_lineno], lambda: True)
                     return local
                 return local
@@ -115,8 +123,24 @@ class LineWorld(object):
 
     def spawn_all(self):
         for nm in self.names:
+            if nm == 'W':
+                # a watchdog thread that reconnects the device while the others are opening streams (one atomic step of the schedule)
+                def wbody():
+                    try:
+                        self.device.connect(read_timeout_s=1.0)
+                    except Stop:
+                        pass
+                    except sched.Abort:
+                        raise
+                    except Exception as e:  # noqa
+                        self.rec.ev('connect_raised', cls=type(e).__name__)
+                self.sched.spawn(nm, wbody)
+                continue
+
             def body():
                 sys.settrace(self.tracer)
+                if self.opcode:
+                    sys.settrace(self.tracer)      # CPython 3.12: f_trace_opcodes is honoured only after the trace function was installed again
                 try:
                     self.device._open(b'shell:x', None, 1, None)
                 except Stop:
@@ -128,6 +152,8 @@ class LineWorld(object):
                 finally:
                     sys.settrace(None)
             self.sched.spawn(nm, body)
+        if 'W' in self.names or not self.prestep:
+            return                      # with a reconnecting thread every thread starts from scratch: an open may begin after the reconnect
         for nm in self.names:
             self.sched.step(nm)         # to the lock acquisition
 
@@ -183,12 +209,12 @@ def replay_model_paths(ctx, start_model, paths):
     return steps
 
 
-def dfs_real(ctx, names, start, limit=None, rng=None):
+def dfs_real(ctx, names, start, limit=None, rng=None, raw=False):
     """code->spec: all (or `limit` random) line-level schedules of the real block; returns traces."""
     traces, scheds = [], []
 
     def run(schedule):
-        w = LineWorld(names, start)
+        w = LineWorld(names, start, raw=raw)
         w.spawn_all()
         fan = []
         i = 0
@@ -222,6 +248,37 @@ def dfs_real(ctx, names, start, limit=None, rng=None):
         for i in range(len(pre), len(fan)):
             for c in range(1, fan[i]):
                 stack.append((pre + [0] * (i - len(pre)))[:i] + [c])
+    return traces, scheds
+
+
+def opcode_preemptions(ctx, start):
+    """Bytecode-level preemption with one preemption: thread A is stopped before its k-th instruction inside _open (every k), thread B
+    runs to the end, then A finishes; and the other way round.  Returns (traces, schedules)."""
+    traces, scheds = [], []
+    for first, second in (('A', 'B'), ('B', 'A')):
+        k = 0
+        while True:
+            w = LineWorld(['A', 'B'], start, opcode=True)
+            w.prestep = False
+            w.spawn_all()
+            steps = 0
+            ended = False
+            for _ in range(k):
+                if w.sched.th[first].done or not w.sched.th[first].runnable():
+                    ended = True
+                    break
+                w.sched.step(first)
+                steps += 1
+            # now the other thread as far as it can go, then the first one, then whoever is left
+            for nm in (second, first, second):
+                while not w.sched.th[nm].done and w.sched.th[nm].runnable():
+                    w.sched.step(nm)
+            w.sched.kill()
+            traces.append(w.trace())
+            scheds.append(['%s stopped before its instruction %d, then %s' % (first, k, second)])
+            if ended or k > 400:
+                break
+            k += 1
     return traces, scheds
 
 
@@ -260,6 +317,25 @@ def body(ctx):
         traces += tr
         scheds += sc
         labels += [('3 threads random', start)] * len(tr)
+    # two opens and a reconnect of the same object by a third thread, every line-level schedule
+    for start in (0, M32 - 2):
+        tr, sc = dfs_real(ctx, ['A', 'B', 'W'], start)
+        traces += tr
+        scheds += sc
+        labels += [('2 threads opening + 1 thread reconnecting, exhaustive', start)] * len(tr)
+    # bytecode-level preemption (one preemption, every instruction of _open)
+    for start in (0, M32 - 1):
+        tr, sc = opcode_preemptions(ctx, start)
+        traces += tr
+        scheds += sc
+        labels += [('bytecode-level, one preemption', start)] * len(tr)
+        ctx.extra.setdefault('bytecode_preemption_points', {})[str(start)] = len(tr)
+    # the same with threads the `threading` module does not know (started through _thread, as C extensions and GUI toolkits do)
+    for start in (0, M32 - 1):
+        tr, sc = dfs_real(ctx, ['A', 'B'], start, raw=True)
+        traces += tr
+        scheds += sc
+        labels += [('2 threads unknown to the threading module, exhaustive', start)] * len(tr)
     ver, r = tlc.validate_traces('TraceEnv', traces)
     ctx.add_tlc(r, 'TraceEnv over %d line-level schedules of _open' % len(traces))
     okn = 0
